@@ -71,6 +71,7 @@ type Scn struct {
 	Pairs   int     `json:"pairs,omitempty"`
 	Variant string  `json:"variant,omitempty"`
 	SleepMs int     `json:"sleep_ms"`
+	Repeat  int     `json:"repeat,omitempty"` // replay only: run the scenario this many times (schedule-dependent failures)
 }
 
 type failRec struct {
@@ -80,15 +81,15 @@ type failRec struct {
 
 // Res is what the child reports for one scenario.
 type Res struct {
-	K        int       `json:"k"`
-	Panic    bool      `json:"panic"`
-	PanicMsg string    `json:"panic_msg,omitempty"`
-	Returned bool      `json:"returned"`
-	Final    []int64   `json:"final"`
-	Fails    []failRec `json:"fails"`
-	Obs      []string  `json:"obs,omitempty"`
+	K        int            `json:"k"`
+	Panic    bool           `json:"panic"`
+	PanicMsg string         `json:"panic_msg,omitempty"`
+	Returned bool           `json:"returned"`
+	Final    []int64        `json:"final"`
+	Fails    []failRec      `json:"fails"`
+	Obs      []string       `json:"obs,omitempty"`
 	Extra    map[string]int `json:"extra,omitempty"`
-	Ms       int64     `json:"ms"`
+	Ms       int64          `json:"ms"`
 }
 
 func b2i(b bool) int64 {
@@ -611,17 +612,18 @@ func gen(r *vh.Rand, tier string) []Scn {
 		return Scn{Kind: "e2e", Instant: instant, Cpk: cpk, Spk: spk, Chm: chm, Cbk: cbk, Phases: phases, Compare: true}
 	}
 	// corpus: one of each close source at the plain instant; the two repaired defects
-	add(Scn{Kind: "stress", Variant: "pair", Pairs: 1500})
-	add(Scn{Kind: "stress", Variant: "close-vs-shutdown", Pairs: 500})
+	add(Scn{Kind: "stress", Variant: "pair", Pairs: 3000})
+	add(Scn{Kind: "stress", Variant: "quad", Pairs: 1000})
+	add(Scn{Kind: "stress", Variant: "close-vs-shutdown", Pairs: 5000})
 	add(e("idle", false, false, false, true, []int{cClientClose}))
 	add(e("idle", false, false, false, true, []int{cServerClose}))
 	add(e("idle", false, false, false, true, []int{cCtxCancel}))
 	add(e("idle", false, false, false, true, []int{cRemove}))
-	add(e("idle", false, false, false, false, []int{cServerClose}))                       // candidate (b): silent peer
+	add(e("idle", false, false, false, false, []int{cServerClose}))                      // candidate (b): silent peer
 	add(e("idle", false, false, false, false, []int{cServerClose}, []int{cClientClose})) // ... until the client calls
 	add(e("idle", false, false, false, true, []int{cLsnClose}))
 	add(e("idle", false, false, false, true, []int{cSrvClose}))
-	add(e("idle", false, false, false, true, []int{cLsnClose}, []int{cClientClose}))     // unreachable peer
+	add(e("idle", false, false, false, true, []int{cLsnClose}, []int{cClientClose})) // unreachable peer
 	add(Scn{Kind: "noclient", Instant: "before-registration", Phases: [][]int{{cLsnClose}}, Compare: false})
 	add(Scn{Kind: "noclient", Instant: "before-registration", Phases: [][]int{{cSrvClose}}, Compare: false})
 	add(Scn{Kind: "noclient", Instant: "before-registration", Phases: [][]int{{cSrvClose, cSrvClose, cLsnClose, cLsnClose}}, Compare: false})
@@ -831,6 +833,9 @@ func main() {
 			panic(err)
 		}
 		scs = []Scn{rp.Input}
+		for i := 1; i < rp.Input.Repeat; i++ {
+			scs = append(scs, rp.Input)
+		}
 	} else {
 		scs = gen(r, fl.Tier)
 	}
@@ -883,11 +888,22 @@ func main() {
 			case strings.Contains(msg, "all goroutines are asleep"):
 				kind = "deadlock"
 			}
-			if len(msg) > 1500 {
-				msg = msg[:1500]
+			// the call site: the first function of package c2 on the panicking goroutine's stack
+			site := "unknown"
+			for _, ln := range strings.Split(msg, "\n") {
+				if i := strings.Index(ln, "/xmt/c2."); i >= 0 && !strings.Contains(ln, "c2.VerifC16") && !strings.Contains(ln, "c2.c16") {
+					site = ln[i+len("/xmt/c2."):]
+					if j := strings.LastIndex(site, "("); j > 0 {
+						site = site[:j]
+					}
+					break
+				}
+			}
+			if len(msg) > 2500 {
+				msg = msg[:2500]
 			}
 			results[cur] = &Res{K: cur, Panic: true, PanicMsg: msg, Returned: false,
-				Fails: []failRec{{"the process died during the scenario: " + first, "fatal-" + kind + "-" + scs[cur].Instant}}}
+				Fails: []failRec{{"the process died during the scenario: " + first, "fatal-" + kind + "-at-" + site}}}
 			next = cur + 1
 			crashes++
 			if crashes > 20 {
